@@ -44,10 +44,11 @@ var (
 )
 
 type col struct {
-	p       Partial
-	hashes  map[string]bool
-	maxSamp int
-	viol    map[string]*Violation // by group key
+	p        Partial
+	hashes   map[string]bool
+	maxSamp  int
+	viol     map[string]*Violation // by group key
+	fallback interface{}
 }
 
 func get(id string) *col {
@@ -97,6 +98,15 @@ func Sample(id string, v interface{}) {
 	if len(c.p.Samples) < c.maxSamp {
 		c.p.Samples = append(c.p.Samples, v)
 	}
+	mu.Unlock()
+}
+
+// SampleFallback remembers a case that is written out as sample if no other
+// sample was selected by the end of the run (so that evidence always shows at
+// least one real case).
+func SampleFallback(id string, v interface{}) {
+	mu.Lock()
+	get(id).fallback = v
 	mu.Unlock()
 }
 
@@ -170,6 +180,9 @@ func Flush() {
 	}
 	os.MkdirAll(dir, 0o755)
 	for id, c := range parts {
+		if len(c.p.Samples) == 0 && c.fallback != nil {
+			c.p.Samples = append(c.p.Samples, c.fallback)
+		}
 		c.p.Hashes = c.p.Hashes[:0]
 		for h := range c.hashes {
 			c.p.Hashes = append(c.p.Hashes, h)
